@@ -535,7 +535,12 @@ class World:
                     return None
                 if not (set(R_.bonds) | set(P_.bonds)) <= set(TS_.bonds):
                     return None
-            return model.from_graphs(kind, R_, P_, TS_)
+            trace = []
+            out = model.from_graphs(kind, R_, P_, TS_, trace)
+            for t_ in trace:
+                self.stats["from_graphs:" + t_] += 1
+            self.stats["from_graphs:" + ("with-ts" if TS_ is not None else "without-ts")] += 1
+            return out
 
         def mk_real(r, p, ts=None):
             return self.R.CLS[kind].from_graphs(r, p, ts)
